@@ -12,6 +12,8 @@ type HarnessRun struct {
 	Monitor      bool
 	NoReinit     bool
 	StepBudget   int
+	MaxPaths     int
+	TimeoutS     int
 	MustReach    []string // outcome classes that must be reached (vacuity guard)
 	PanicLabel   string   // label under which an escaping panic is reported
 }
@@ -23,6 +25,7 @@ type Check struct {
 	Bounds      map[string]string
 	Outside     []string
 	Assumptions []string
+	Race        bool // native replays run under the race detector
 }
 
 var commonAssumptions = []string{
@@ -60,13 +63,33 @@ func allChecks() []Check {
 			Assumptions: append([]string{"token-level harnesses replace (*Scanner).Scan by a stub that returns symbolic token kinds from the scanner image established by C14/scanstep (kind-in-image); native replays render the tokens to text and run the real scanner"}, commonAssumptions...),
 		},
 		{
+			ID: "C03", Title: "Evaluation is total: a value or an error, never a panic",
+			Runs: []HarnessRun{
+				{Harness: "VP_C03_calls", Quick: map[string]int{"A": 2}, Thorough: map[string]int{"A": 3}, MustReach: []string{"C03/calls/value", "C03/calls/error"}, PanicLabel: "C03/calls/no-panic"},
+				{Harness: "VP_C03_ops", Quick: map[string]int{}, MustReach: []string{"C03/ops/value", "C03/ops/error"}, PanicLabel: "C03/ops/no-panic"},
+				{Harness: "VP_C03_positions", Quick: map[string]int{"S": 2}, Thorough: map[string]int{"S": 3}, MustReach: []string{"C03/positions/value", "C03/positions/error"}, PanicLabel: "C03/positions/no-panic"},
+				{Harness: "VP_smoke_eval", Quick: map[string]int{"FROM": 0, "TO": 1000}, SampleEvery: 1, PanicLabel: "C03/smoke/no-panic"},
+			},
+			Bounds: map[string]string{"calls": "a call of each of the 48 builtin names and of 10 other names (missing name, non-function, host functions with a trailing slice / one / three / non-error results / interface / map / variadic parameters, a boolean) with 0..A arguments, each over 11 argument kinds (null, typed nil pointer, symbolic bool, numbers and strings from concrete pools incl. an invalid regular expression, arrays, map, slice of maps, time, func), with and without spread; quick A=2, thorough A=3",
+				"ops":       "every binary and prefix operator, typeof, ?:, member access (. and !.) on maps/structs/other kinds, array literal and assignment over every pair of operand kinds",
+				"positions": "left/right/mid/lpad/rpad with strings of 0..S symbolic bytes and every position in -4..7",
+				"smoke":     "translator validation: 83 fixed formulas evaluated in the engine and natively, results must be identical"},
+			Outside:     []string{"symbolic numeric values inside sqrt/exp/ln/log/'/' (concrete pool only)", "regexp with a symbolic pattern or subject", "pad lengths beyond 7", "formulas longer than one operator/call", "host functions that panic themselves"},
+			Assumptions: append([]string{"time.LoadLocation is modelled (Asia/Shanghai = fixed +08:00, UTC, Local; any other name is unknown)"}, commonAssumptions...),
+		},
+		{
 			ID: "C04", Title: "Decimal arithmetic is exact; nothing passes through binary floating point",
 			Runs: []HarnessRun{
 				{Harness: "VP_C04_entry_int", Quick: map[string]int{"LO": 0, "HI": 63}, MustReach: []string{"C04/entry-int/done"}, PanicLabel: "C04/entry-int/no-panic"},
 				{Harness: "VP_C04_entry_int", Quick: map[string]int{"LO": -1, "HI": 0}, MustReach: []string{"C04/entry-int/done"}, PanicLabel: "C04/entry-int/no-panic"},
+				{Harness: "VP_C04_arith", Quick: map[string]int{"OP": 0, "CB": 1000000, "E": 1, "DB": 0}, Thorough: map[string]int{"OP": 0, "CB": 1000000000, "E": 2, "DB": 0}, MustReach: []string{"C04/arith/done"}, PanicLabel: "C04/arith/no-panic"},
+				{Harness: "VP_C04_arith", Quick: map[string]int{"OP": 1, "CB": 1000000, "E": 1, "DB": 0}, Thorough: map[string]int{"OP": 1, "CB": 1000000000, "E": 2, "DB": 0}, MustReach: []string{"C04/arith/done"}, PanicLabel: "C04/arith/no-panic"},
+				{Harness: "VP_C04_arith", Quick: map[string]int{"OP": 2, "CB": 100000, "E": 1, "DB": 0}, Thorough: map[string]int{"OP": 2, "CB": 1000000, "E": 2, "DB": 0}, MustReach: []string{"C04/arith/done"}, PanicLabel: "C04/arith/no-panic"},
+				{Harness: "VP_C04_arith", Quick: map[string]int{"OP": 3, "CB": 1000, "E": 1, "DB": 6}, Thorough: map[string]int{"OP": 3, "CB": 1000, "E": 1, "DB": 30}, MustReach: []string{"C04/arith/done"}, PanicLabel: "C04/arith/no-panic"},
 			},
-			Bounds:      map[string]string{"entry-int": "a Go int64 / int / int32 data value n (one symbolic 64-bit value, 1 <= |n| < 2^63, plus |n| < 1000 incl. 0) read back through the evaluator equals n exactly"},
-			Outside:     []string{"n = MinInt64"},
+			Bounds: map[string]string{"arith": "[a OP b] evaluated by the real runner for a, b = (-1)^s * c * 10^e with symbolic sign and coefficient c < CB and every exponent pair in [-E,E]^2 (real decimal add/mul/quorem code executed symbolically) vs exact integer arithmetic at the common exponent; result context asserted to be precision 34 / half-even; OP 0,1 (+,-): CB=10^6 quick / 10^9 thorough; OP 2 (*): CB=10^5 / 10^6; OP 3 (%): the divisor's coefficient is case-split over 1..DB-1 (symbolic-by-symbolic division does not finish), dividend c < 1000",
+				"entry-int": "a Go int64 / int / int32 data value n (one symbolic 64-bit value, 1 <= |n| < 2^63, plus |n| < 1000 incl. 0) read back through the evaluator equals n exactly"},
+			Outside:     []string{"n = MinInt64", "'/' (the library scales the dividend by 10^34 into math/big: division on symbolic words does not finish in any back end)", "results beyond 34 digits (the half-even rounding regime needs coefficients beyond 64 bits)", "float64 data values and the final float64 hand-back (strconv formatting/parsing of symbolic floats is not encodable)", "chains of operations"},
 			Assumptions: commonAssumptions,
 		},
 		{
@@ -99,6 +122,26 @@ func allChecks() []Check {
 			Bounds:      map[string]string{"locals": "programs chosen symbolically over {literal, $a/$b read, x/y read, $n = e, e,e, [e,e], f(e,e) (recording host function), c?e:e, (e), forbidden targets x=e, 1=e, x.k=e} with at most N+1 generated nodes, against a store-passing reference evaluator; frame condition by the engine's write monitor over every cell reachable from the data map plus a native-checkable snapshot comparison"},
 			Outside:     []string{"programs larger than the bound"},
 			Assumptions: append([]string{"write monitor: Store / map update / delete / clear instructions of the SSA code are intercepted; writes inside reflect.Value.Set* models are intercepted in SetMapIndex"}, commonAssumptions...),
+		},
+		{
+			ID: "C08", Title: "Evaluation is a pure function of formula text and data",
+			Runs: []HarnessRun{
+				{Harness: "VP_C08_parse", Quick: map[string]int{"L": 2}, Thorough: map[string]int{"L": 3}, MustReach: []string{"C08/parse/accepted", "C08/parse/rejected"}, PanicLabel: "C08/parse/no-panic"},
+				{Harness: "VP_C08_eval", Quick: map[string]int{"N": 2, "D": 2}, Thorough: map[string]int{"N": 3, "D": 2}, MustReach: []string{"C08/eval/done"}, PanicLabel: "C08/eval/no-panic"},
+			},
+			Bounds: map[string]string{"parse": "every text of L symbolic bytes parsed twice with unrelated parsing/evaluation/analysis in between: same verdict, same error text / structurally identical trees; write monitor over every cell reachable from the package-level variables of formula (incl. the builtin table)",
+				"eval": "programs of the C07 generator evaluated twice in fresh runners with equal data and analysed twice, unrelated work in between: same value / error / field set; the tree is compared with a separately built twin and monitored for writes"},
+			Outside:     []string{"Go map iteration order (the engine iterates deterministically)", "caches inside dependencies (decimal's power table, pools): exempt and trusted", "now / toDay"},
+			Assumptions: append([]string{"inductive formulation: if no operation ever writes hidden state, every history leaves the package in its initial state; the write monitor intercepts Store, map update, delete, clear, sync.Map.Store/Delete on monitored cells"}, commonAssumptions...),
+		},
+		{
+			ID: "C09", Title: "A parsed formula can be shared across goroutines", Race: true,
+			Runs: []HarnessRun{
+				{Harness: "VP_C09_shared", Quick: map[string]int{"N": 2, "D": 2}, Thorough: map[string]int{"N": 3, "D": 2}, MustReach: []string{"C09/shared/done"}, PanicLabel: "C09/shared/no-panic"},
+			},
+			Bounds:      map[string]string{"shared": "for every program of the C07 generator: the operations a goroutine performs on a shared tree (Resolve with its own runner and data, ResolveReferenceFields, ParseSourceCode and FormatDiagnostic of another text) write no cell reachable from the tree or from the package-level state (sufficient condition for race freedom under the Go memory model); native replays run the same operations in 4 goroutines under the race detector"},
+			Outside:     []string{"interleavings themselves are not explored (the solver decides the frame condition that makes them irrelevant)", "synchronisation inside dependencies and the standard library (sync.Map, decimal's atomic table) is trusted"},
+			Assumptions: commonAssumptions,
 		},
 		{
 			ID: "C10", Title: "Referenced-field analysis is exact and sufficient",
@@ -145,12 +188,33 @@ func allChecks() []Check {
 			Assumptions: commonAssumptions,
 		},
 		{
+			ID: "C19", Title: "Date builtins agree with the proleptic Gregorian calendar and preserve instants",
+			Runs: []HarnessRun{
+				{Harness: "VP_C19_date", Quick: map[string]int{}, MustReach: []string{"C19/date/done"}, PanicLabel: "C19/date/no-panic", SampleEvery: 1},
+				{Harness: "VP_C19_fields", Quick: map[string]int{}, MustReach: []string{"C19/fields/done"}, PanicLabel: "C19/fields/no-panic", SampleEvery: 1},
+				{Harness: "VP_C19_zone", Quick: map[string]int{}, MustReach: []string{"C19/zone/done"}, PanicLabel: "C19/zone/no-panic", SampleEvery: 1},
+			},
+			Bounds:      map[string]string{"all": "package time is environment: Date, AddDate, Year..Weekday, Format, Now are uninterpreted functions of (instant, zone) / a non-decreasing symbolic clock; the solver decides, for all y in 1..9999, m in -50..60, d in -800..800, all shift triples, all instants from year 68 to 9892, three zones, the *wiring* of the 14 date builtins to those primitives (argument order, 1-based month, weekday, milliseconds, In vs UTC, local midnight, clock bracket); native replays of sampled models compare against the real time package and an independent days-from-civil computation"},
+			Outside:     []string{"that Go's time package implements the proleptic Gregorian calendar and the zone rules (trusted; calendar arithmetic on symbolic years times out in z3, z3 5.1 and cvc5)", "daylight-saving zones (no zone database in the engine)"},
+			Assumptions: commonAssumptions,
+		},
+		{
 			ID: "C20", Title: "A runner behaves like a plain map of data plus a separate key-value store",
 			Runs: []HarnessRun{
 				{Harness: "VP_C20_runner", Quick: map[string]int{"N": 3}, Thorough: map[string]int{"N": 4}, MustReach: []string{"C20/runner/done"}, PanicLabel: "C20/runner/no-panic"},
 			},
 			Bounds:      map[string]string{"runner": "every sequence of N operations over {SetThis(nil | {a:v} | {$x:7}), SetThisValue(a|$x, v), evaluate one of 7 formulas reading/assigning $x and a, Set(k,v), Get(k)} from both initial states, against the two-map model; quick N=3, thorough N=4"},
 			Outside:     []string{"longer histories"},
+			Assumptions: commonAssumptions,
+		},
+		{
+			ID: "C11", Title: "Host functions are called exactly as declared, or not at all",
+			Runs: []HarnessRun{
+				{Harness: "VP_C11_hostcalls", Quick: map[string]int{"A": 2}, Thorough: map[string]int{"A": 3}, MustReach: []string{"C11/hostcalls/value", "C11/hostcalls/error"}, PanicLabel: "C11/hostcalls/no-panic"},
+				{Harness: "VP_C11_results", Quick: map[string]int{}, MustReach: []string{"C11/results/value", "C11/results/error"}, PanicLabel: "C11/results/no-panic"},
+			},
+			Bounds:      map[string]string{"hostcalls": "14 recording host functions (string, int, int8, float64, bool, interface{}, *decimal.Big, time.Time, []string, []int, map[string]int parameters, variadic tails, optional leading context) x argument lists of length 0..A over {null, symbolic bool, numbers from a pool incl. fractions and negatives, symbolic strings, string array, number array, map, time}, with and without spread; the oracle predicts the exact invocation log or an error", "results": "returned error (symbolic) aborts with an error naming the function; returned int/int32/int64/float32/float64 become numbers"},
+			Outside:     []string{"the text produced when a composite value is converted to a string parameter", "numbers beyond the pool (the number-to-int bridge is floating point)", "host functions with other parameter kinds"},
 			Assumptions: commonAssumptions,
 		},
 		{
